@@ -368,6 +368,16 @@ def check_stack_default(ctx, rp, q, rule='R-STACKDEFAULT'):
         return 1
     a1 = byunlim[0]
     loop1 = [p_ for p_, c_ in chain(a1) if isinstance(p_, (ast.For, ast.While))]
+    # a flag that is set together with the choice (`found = True` next to it, False before) says the same as `stackdim is not None`
+    sib = getattr(a1, '_parent', None)
+    flags = set()
+    for f_ in ('body', 'orelse'):
+        lst = getattr(sib, f_, None)
+        if isinstance(lst, list) and a1 in lst:
+            flags |= set(t.id for s2 in lst if isinstance(s2, ast.Assign) and isinstance(s2.value, ast.Constant) and s2.value.value is True for t in s2.targets if isinstance(t, ast.Name))
+    flags = set(f_ for f_ in flags if any(isinstance(s2, ast.Assign) and isinstance(s2.value, ast.Constant) and s2.value.value is False and any(isinstance(t, ast.Name) and t.id == f_ for t in s2.targets)
+                                          and s2.lineno < a1.lineno for s2 in iter_stmts(fn.body)))
+    none_tests = none_tests + tuple('not %s' % f_ for f_ in flags)
     bad = None
     for a2 in others:
         ch = chain(a2)
